@@ -296,6 +296,39 @@ def generate(tier, rng):
              'weights': ws, 'perm': list(reversed(range(n))), 'input': rng.choice(['list', 'gen']), 'wtype': 'float',
              'leaf': 'jax', 'tol': 0.0, 'dtype': 'float32', 'idtype': 'sentinel', 'kw': False, 'fresh': False, 'reinit': False,
              'ctx': 'eager', 'sweep': 'scale'}
+  # ---- weights in NARROW dtypes (numpy scalar, 0-d numpy array, jax scalar): every weight fits its dtype, the TOTAL
+  # does not (or just does); totals are powers of two so the comparison is exact.  A running total kept in the
+  # weights' own dtype would wrap (integers) or overflow / round (float16, bfloat16).
+  narrow = [('uint8', [128, 64, 64]), ('uint8', [200, 56]), ('uint8', [64, 32, 32]), ('int8', [64, 64]), ('int8', [32, 16, 16]),
+            ('uint16', [32768, 32768]), ('uint16', [1024, 1024]), ('int16', [16384, 16384]), ('int16', [4096, 4096]),
+            ('int32', [2 ** 30, 2 ** 30]), ('int32', [2 ** 30, 2 ** 30, 2 ** 30, 2 ** 30]), ('uint32', [2 ** 31, 2 ** 31]),
+            ('uint8', [255, 1]), ('uint8', [0, 128, 128]),
+            ('float16', [1024.0, 512.0, 512.0]), ('bfloat16', [128.0, 64.0, 64.0]), ('float16', [0.5, 0.25, 0.25])]
+  for j, (dt, wl) in enumerate(narrow):
+    for how in ('np', 'np0d', 'jnp'):
+      if how != 'jnp' and dt == 'bfloat16':
+        continue
+      st = small[(j + len(how)) % 2]
+      yield {'kind': ['mean', 'agg'][(j + len(how)) % 2], 'struct': st,
+             'trees': [[dyadic(rng) for _ in range(size(st))] for _ in wl], 'weights': [float(w) for w in wl],
+             'perm': list(reversed(range(len(wl)))), 'input': ['list', 'gen', 'iterlist'][j % 3], 'wtype': f'{how}:{dt}',
+             'leaf': 'jax', 'tol': 0.0, 'dtype': 'float32', 'idtype': 'bytes', 'kw': False, 'fresh': j % 2 == 0, 'reinit': False,
+             'ctx': 'eager', 'twice': j % 4 == 0, 'narrow': 'fits' if sum(wl) <= {'uint8': 255, 'int8': 127, 'uint16': 65535, 'int16': 32767,
+                                                                                'int32': 2 ** 31 - 1, 'uint32': 2 ** 32 - 1}.get(dt, 1e9) else 'total-overflows'}
+  # float16 / bfloat16 weights whose total overflows or is not representable in that dtype (see known finding)
+  for dt, wl, how in (('float16', [32768.0, 32768.0], 'np'), ('float16', [32768.0, 32768.0], 'jnp'),
+                      ('float16', [2048.0, 1.0, 1.0, 2046.0], 'np'), ('bfloat16', [256.0, 1.0, 1.0, 254.0], 'jnp')):
+    st = small[0]
+    yield {'kind': 'mean', 'struct': st, 'trees': [[dyadic(rng) + 8 for _ in range(size(st))] for _ in wl],
+           'weights': wl, 'perm': list(range(len(wl))), 'input': 'list', 'wtype': f'{how}:{dt}', 'leaf': 'jax', 'tol': 0.0,
+           'dtype': 'float32', 'idtype': 'bytes', 'kw': False, 'fresh': False, 'reinit': False, 'ctx': 'eager',
+           'narrow': 'float-total'}
+  # single narrow weights through tree_weight / tree_inverse_weight
+  for j, (dt, w) in enumerate([('uint8', 200), ('int8', 64), ('uint16', 32768), ('int32', 2 ** 30), ('float16', 1024.0), ('uint8', 0)]):
+    st = small[j % 2]
+    yield {'kind': ['weight', 'invweight', 'invweight_eq'][j % 3], 'struct': st, 'trees': [[dyadic(rng) for _ in range(size(st))]],
+           'weights': [float(w)], 'perm': [0], 'input': 'list', 'wtype': f'{["np", "jnp"][j % 2]}:{dt}', 'leaf': 'jax', 'tol': 0.0,
+           'dtype': 'float32', 'kw': False, 'ctx': 'eager', 'narrow': 'single'}
   # ---- offset / ill-conditioned data, exact (integers below 2^24, power-of-two totals): mean >> spread with both signs,
   # all trees equal, a constant plus one outlier, alternating signs that cancel
   pats = ['offset', 'offset-neg', 'all-equal', 'outlier', 'alternating']
@@ -439,8 +472,12 @@ def generate(tier, rng):
            if c['kind'] in ('mean', 'agg', 'sum', 'clip', 'weight', 'add') and c['wtype'] in ('float', 'int')
            and c.get('dtype', 'float32') == 'float32' and c['leaf'] == 'jax' and c.get('ctx', 'eager') == 'eager'
            and not c.get('nonfinite')][:80]
+    x64 = [{'kind': k_, 'struct': ['a', [2]], 'trees': [[1.5, -2.0], [0.5, 4.0]], 'weights': [float(2 ** 62), float(2 ** 62)],
+            'perm': [1, 0], 'input': 'list', 'wtype': wt_, 'leaf': 'jax', 'tol': 0.0, 'dtype': 'float32', 'idtype': 'bytes',
+            'kw': False, 'fresh': False, 'reinit': False, 'ctx': 'eager', 'narrow': 'total-overflows', 'nodtype': True}
+           for k_ in ('mean', 'agg') for wt_ in ('np:int64', 'np0d:int64', 'jnp:int64')]
     for flag, val in (('jax_enable_x64', True), ('jax_numpy_rank_promotion', 'raise'), ('jax_disable_jit', True)):
-      yield {'kind': 'flagbatch', 'flag': flag, 'value': val, 'cases': sub, 'trees': [], 'weights': [], 'struct': ['a', []],
+      yield {'kind': 'flagbatch', 'flag': flag, 'value': val, 'cases': sub + (x64 if flag == 'jax_enable_x64' else []), 'trees': [], 'weights': [], 'struct': ['a', []],
              'input': 'list', 'wtype': 'float', 'leaf': 'jax', 'tol': 0.0, 'perm': []}
   for i in range(n_small):
     st = rng.choice(structs)
@@ -522,6 +559,13 @@ def _wrap(items, how):
 
 def _weight(w, wtype):
   import jax.numpy as jnp
+  if ':' in wtype:
+    how, dt = wtype.split(':')
+    if how == 'jnp':
+      return jnp.asarray(int(w) if 'int' in dt else w, dtype=getattr(jnp, dt))
+    ndt = _np_dtype(dt)
+    v = np.asarray(int(w) if 'int' in dt else w).astype(ndt)
+    return v if how == 'np0d' else v[()]
   if wtype == 'int' and float(w).is_integer():
     return int(w)
   if wtype == 'np32':
@@ -771,7 +815,7 @@ def _call(case, order):
                  jax.tree_util.tree_structure(res) == jax.tree_util.tree_structure(ref) and
                  [tuple(np.shape(l)) for l in _leaves(res)] == [tuple(np.shape(l)) for l in _leaves(ref)] and
                  # (with jit disabled numpy leaves are multiplied by NumPy itself, whose promotion rules differ: dtype not judged)
-                 (all(np.asarray(l).dtype == want_dt for l in _leaves(res)) or (ctx == 'nojit' and case['leaf'] == 'np')))
+                 (all(np.asarray(l).dtype == want_dt for l in _leaves(res)) or (ctx == 'nojit' and case['leaf'] == 'np') or case.get('nodtype')))
   one_shot = None
   if it is not None:
     one_shot = {'taken': it.i, 'len': len(it._items), 'iter_calls': it.iter_calls, 'after_end': it.after_end}  # pylint: disable=protected-access
@@ -853,6 +897,11 @@ def _asdt(case, v):
 
 def oracle(case, obs):
   case = case['case'] if 'kind' not in case and 'case' in case else case      # corpus entries wrap the case
+  if case.get('narrow') == 'float-total':
+    # float16 / bfloat16 weights whose total is not representable in that dtype: everything that goes wrong in these
+    # cases is one finding (the running total is kept in the weights' own dtype)
+    out = _oracle(case, obs)
+    return [('narrow-float-weight-total', f'tree_mean with {case["wtype"]} weights {case["weights"]}: ' + '; '.join(k for k, _ in out))] if out else []
   if case['kind'] == 'flagbatch':
     if obs['sub'] is None:
       return [('flag-subprocess-failed', f'{case["flag"]}={case["value"]}: {obs["sub_error"]}')]
@@ -928,14 +977,15 @@ def _oracle(case, obs):
     ws = np.array(case['weights'], dtype=np.float64)
     tot = ws.sum()
     if any(v is None for v in res):
-      out.append(('non-finite', 'weighted mean has a NaN / Inf coordinate'))
+      out.append(('narrow-float-weight-total' if case.get('narrow') == 'float-total' else 'non-finite', 'weighted mean has a NaN / Inf coordinate'))
     elif tot == 0:
       if any(v != 0 for v in res):
         out.append(('zero-total', 'total weight 0 but the result is not all zeros'))
     else:
       want = sum(w * t for w, t in zip(ws, trees)) / tot
       if not all(_close(r, w) for r, w in zip(res, want)):
-        out.append(('mean-value', 'result is not sum(w_i p_i) / sum(w_i)'))
+        key = 'narrow-float-weight-total' if case.get('narrow') == 'float-total' else 'mean-value'
+        out.append((key, 'result is not sum(w_i p_i) / sum(w_i)'))
       lo, hi = np.min(trees, axis=0), np.max(trees, axis=0)
       used = [t for t, w in zip(trees, ws) if w > 0]
       lo2, hi2 = np.min(used, axis=0), np.max(used, axis=0)
@@ -984,7 +1034,7 @@ def _oracle(case, obs):
 
 def encode(case, obs):
   case = case['case'] if 'kind' not in case and 'case' in case else case      # corpus entries wrap the case
-  if case['kind'] in ('l2', 'size', 'zeros_like', 'pipeline', 'flagbatch'):
+  if case['kind'] in ('l2', 'size', 'zeros_like', 'pipeline', 'flagbatch') or case.get('narrow') == 'float-total':
     return None
   _qtree = lambda t: '[' + '; '.join(fw.qlit(_asdt(case, v)) for v in t) + ']'
   if obs.get('error') or obs['res'] is None:
@@ -1000,7 +1050,8 @@ def encode(case, obs):
     else:
       c = 'KMeanNQ [' + '; '.join(f'({nqt(t)}, Some {fw.qlit(w)})' for t, w in zip(case['trees'], case['weights'])) + ']'
     return f'(({c})%Q, mkO07 {fw.qlit(_tol(case))} {res}%Q)'
-  ws = [fw.qlit(float(np.float32(w)) if case['wtype'] in ('np32', 'jnp', 'jnp0d', 'np0d', 'jnp_weak', 'np64') else float(w)) for w in case['weights']]
+  ws = [fw.qlit(float(np.float32(w)) if case['wtype'] in ('np32', 'jnp', 'jnp0d', 'np0d', 'jnp_weak', 'np64') else Fraction(int(w)) if float(w).is_integer() else float(w))
+        for w in case['weights']]
   if kind == 'mean':
     c = 'KMean [' + '; '.join(f'({_qtree(t)}, {w})' for t, w in zip(case['trees'], ws)) + ']'
   elif kind == 'agg':
@@ -1036,6 +1087,7 @@ def describe(case, obs):
   if case['kind'] == 'flagbatch':
     return {'kind': 'flagbatch', 'flag': case['flag'], 'sub_cases': len(case['cases'])}
   d = {'kind': case['kind'], 'clients': len(case['trees']), 'input': case['input'], 'exact': case['tol'] == 0,
+       'narrow_weights': case.get('narrow', 'no'),
        'layout': case.get('layout', 'C') if case['leaf'] == 'np' else 'jax', 'pattern': case.get('pattern', 'none'),
        'second_call': bool(case.get('twice')),
        'sweep': case.get('sweep', 'none'), 'nonfinite_input': bool(case.get('nonfinite')),
